@@ -53,6 +53,12 @@ func main() {
 		}
 	}()
 
+	// watchdog: a run that does not finish is a failed run (no verdict), never a pass
+	go func() {
+		time.Sleep(15 * time.Minute)
+		fmt.Fprintln(os.Stderr, "pikelint: watchdog: analysis did not finish within 15 minutes")
+		os.Exit(2)
+	}()
 	vdir := *verif
 	if vdir == "" {
 		vdir, _ = os.Getwd()
